@@ -270,13 +270,38 @@ class NArr:
                 f = _flat(self.data)
                 return sum(Fraction(x) for x in f) / len(f)
             return PyFunc(mean)
-        if name in ("any", "all"):
-            def red(a, k, n):
-                if a or k:
-                    raise Unsupported(f"{name} over an axis")
-                f = _flat(self.data)
-                return any(f) if name == "any" else all(f)
+        if name in ("any", "all", "max", "min", "argmax", "argmin", "sum"):
+            def red(a, k, n, name=name):
+                ax = a[0] if a else k.get("axis")
+                fn = {"any": lambda c: bool(any(c)),
+                      "all": lambda c: bool(all(c)),
+                      "max": max, "min": min, "sum": sum,
+                      "argmax": lambda c: max(range(len(c)),
+                                              key=lambda i: (c[i], -i)),
+                      "argmin": lambda c: max(range(len(c)),
+                                              key=lambda i: (-c[i], -i)),
+                      }[name]
+                if ax is None:
+                    f = _flat(self.data)
+                    if not f and name in ("max", "min", "argmax", "argmin"):
+                        raise Raised("ValueError: reduction of an empty "
+                                     "array")
+                    return fn(f)
+                if isinstance(ax, Fraction):
+                    ax = int(ax)
+                if len(self.shape) == 2 and ax in (0, 1):
+                    cols = [list(c) for c in zip(*self.data)] if ax == 0 \
+                        else [list(r) for r in self.data]
+                    if ax == 0 and not self.data:
+                        raise Raised("ValueError: reduction of an empty "
+                                     "array")
+                    return NArr([fn(c) for c in cols])
+                if len(self.shape) == 1 and ax == 0:
+                    return fn(list(self.data))
+                raise Unsupported(f"{name} over axis {ax}")
             return PyFunc(red)
+        if name == "dtype":
+            return "DTYPE"
         if name == "flatten":
             def flatten(a, k, n):
                 order = a[0] if a else k.get("order", "C")
@@ -354,6 +379,14 @@ def hook(interp, name, args, kwargs, node):
         return nonzero(a0)
     if name == "numpy.unique" and isinstance(a0, NArr) and not kwargs:
         return NArr(sorted(set(_flat(a0.data))))
+    if name == "numpy.unique" and isinstance(a0, NArr) and \
+            set(kwargs) == {"return_index"} and kwargs["return_index"] \
+            and len(a0.shape) == 1:
+        vals = sorted(set(a0.data))
+        return (NArr(vals), NArr([a0.data.index(v) for v in vals]))
+    if name == "numpy.finfo":
+        from .interp import Obj
+        return Obj(None, {"eps": Fraction(1, 2 ** 52)})
     if name == "numpy.array" and isinstance(a0, (list, tuple)):
         def conv(v):
             if isinstance(v, NArr):
